@@ -278,6 +278,25 @@ def run(prop, tier):
                 continue
             for n in (3, 4, 6):
                 lb.append((cl, pl, n))
+        # every position of a region relative to the window: k ordered events, a region of two events that belong two events
+        # back, two more events; and the same region repeated along a longer stream (the window wraps several times)
+        nring = 0
+        for n in ((8, 9) if tier == "quick" else (7, 8, 9, 12, 16)):
+            for k in range(2, 3 * n + 2):
+                cl = tuple(2 * i + 2 for i in range(k)) + (2 * k - 1, 2 * k - 1) + (2 * k + 2, 2 * k + 4)
+                lb.append((cl, ((k, k + 2),), n))
+                nring += 1
+            for period in (n - 2, n - 1, n, n + 1):
+                cl, pl = [], []
+                c = 0
+                for rep in range(4):
+                    for i in range(period - 2):
+                        c += 2
+                        cl.append(c)
+                    pl.append((len(cl), len(cl) + 2))
+                    cl += [c - 1, c - 1]
+                lb.append((tuple(cl), tuple(pl), n))
+                nring += 1
 
         def one_lb(c):
             cl, pl, n = c
@@ -304,7 +323,7 @@ def run(prop, tier):
             if msg:
                 ctx.violation("look-back: clocks=%r regions=%r: %s" % (c[0], c[1], msg),
                               {"engine": "E6 real ovnisort", "clocks": c[0], "regions": c[1], "n": c[2]}, {"kind": "lookback"})
-        ctx.part("lookback", cases=len(lb))
+        ctx.part("lookback", cases=len(lb), window_positions=nring)
         # small windows with two streams: the first stream holds more events than the window (the ring has wrapped when the
         # second stream starts), the second has a region that belongs at its very beginning
         lb2 = [(cl, pl, n) for (cl, pl) in two for n in (5, 6, 8) if pl and pl[0][0] == 0 and pl[0][1] > 0]
